@@ -21,7 +21,7 @@ ASSUMPTIONS = [
     "clientImpl.Close closes the PacketConn it got from the factory exactly once per call (part of the model as read; checked by the harness census on every history)",
     "configFunc / connectedFunc / ConnFactory are called back on the goroutine that holds rc.m (true of the code as read; the harness attributes boundary events to goroutines that way)",
 ]
-TRUSTED = ["modelled rather than verified: core/client/reconnect.go, the cleanup paths of connect() and wrapIfConnectionClosed in core/client/client.go (hand transcription in coq/model/C16_Reconnect.v); the cut of the raw log into locked sections (coq/corr/C16_Corr.v group). The log acceptor itself (coq/corr/C16_Corr.v accepts, searches the hidden sections in a normal form) is proved SOUND for the LTS (C16_accepted_log_is_weak_trace / _is_run / _quiet_point / _log_monitors); its completeness is tested exhaustively on bounded runs (C16_acceptor_complete_bounded), not proved"]
+TRUSTED = ["modelled rather than verified: core/client/reconnect.go, the cleanup paths of connect() and wrapIfConnectionClosed in core/client/client.go (hand transcription in coq/model/C16_Reconnect.v); the python/Go recording of the raw log. The cut of the raw log into locked sections (coq/corr/C16_Corr.v group) is proved to only regroup (C16_group_only_regroups). The log acceptor itself (coq/corr/C16_Corr.v accepts, searches the hidden sections in a normal form) is proved SOUND for the LTS (C16_accepted_log_is_weak_trace / _is_run / _quiet_point / _log_monitors); its completeness is tested exhaustively on bounded runs (C16_acceptor_complete_bounded), not proved"]
 PER_SHARD = 400
 EXTRA_TARGETS = ["corr/C16_Corr.vo"]
 NG = 4
